@@ -2367,7 +2367,23 @@ pub fn compile<I: BufRead, O: Write>(
     for i in &args.defines {
         let mut s = i.splitn(2, '=');
         let def = s.next().unwrap();
-        let value = s.next().unwrap_or("1");
+        let value = context.replace_all(s.next().unwrap_or("1"));
+        // The name ends up in a regex and the value is substituted until nothing changes:
+        // only accept an identifier whose (expanded) value does not mention it again
+        let is_identifier = def
+            .chars()
+            .next()
+            .map_or(false, |c| c.is_ascii_alphabetic() || c == '_')
+            && def.chars().all(|c| c.is_ascii_alphanumeric() || c == '_');
+        if !is_identifier
+            || regex::Regex::new(&format!("\\b{}\\b", def))
+                .unwrap()
+                .is_match(&value)
+        {
+            return Err(Error::Configuration {
+                error: format!("Invalid macro definition on the command line: {}", i),
+            });
+        }
         context.define(def, value);
     }
 
